@@ -196,6 +196,20 @@ func genC14(t *rapid.T) c14Case {
 		case 3, 4: // idle beyond 5 s, then inbound data that is not a packet
 			d := rapid.SampledFrom([]int64{6000, 6100, 9000, 15000, 4000, 20000, 5250, 5500, 5900, 4750, 4500, 5999}).Draw(t, "idle")
 			add(op14{Kind: "advance", Ms: safeAdvance(d)})
+			if k := rapid.IntRange(0, nT-1).Draw(t, "pk"); nT == 2 && m.tr[k].open && rapid.IntRange(0, 2).Draw(t, "pkt_as_trigger") == 0 {
+				// the inbound data after the silence is a packet of one of the transfers: the other one (idle just as long)
+				// must be re-requested by it all the same
+				var miss []int
+				for j, got := range m.tr[k].slots {
+					if !got {
+						miss = append(miss, j+1)
+					}
+				}
+				if len(miss) > 0 {
+					add(op14{Kind: "pkt", T: k, No: uint16(rapid.SampledFrom(miss).Draw(t, "trigger_no"))})
+					break
+				}
+			}
 			add(op14{Kind: rapid.SampledFrom([]string{"trigger", "trigger", "half"}).Draw(t, "trig")})
 		default: // jump towards / across the 60 s limit
 			d := rapid.SampledFrom([]int64{30000, 45000, 58000, 62000, 70000, 59700, 60300, 60900}).Draw(t, "long")
@@ -226,7 +240,16 @@ func checkC14(c c14Case, _ *kit.Collector) kit.Result {
 	restarted := false
 	start := time.Now()
 	var virt int64
+	pktTrigger := false
+	rereqForTrigger := map[int]bool{}
 	feed := func(o op14, data []byte, idx int) string {
+		idleBefore := map[int]int64{}
+		rereqForTrigger = map[int]bool{}
+		for k := range m.tr {
+			if m.tr[k].open {
+				idleBefore[k] = m.now - m.tr[k].progress
+			}
+		}
 		exp := m.step(&c, o)
 		out, err := fd.feed(data)
 		if err != nil {
@@ -277,6 +300,24 @@ func checkC14(c c14Case, _ *kit.Collector) kit.Result {
 		for k := range c.Transfers {
 			want, must := exp.rereq[k]
 			g, has := got[m.tr[k].first]
+			if o.Kind == "pkt" && o.T == k && idleBefore[k] > 5000 && !must {
+				// this transfer's own packet ended its silence: whether "the next inbound data" still owes it a re-request
+				// can be read both ways; a re-request is accepted if it names exactly what is missing now
+				pktTrigger = true
+				if has {
+					var miss []uint16
+					for i, gotIt := range m.tr[k].slots {
+						if !gotIt {
+							miss = append(miss, uint16(i+1))
+						}
+					}
+					if !m.tr[k].open || fmt.Sprint(g) != fmt.Sprint(miss) {
+						return fmt.Sprintf("op %d: re-request for transfer %d lists %v, missing now %v (open %v)", idx, k, g, miss, m.tr[k].open)
+					}
+					rereqForTrigger[k] = true
+				}
+				continue
+			}
 			if must != has {
 				return fmt.Sprintf("op %d (%s) at model time %d ms: re-request for transfer %d (id %#04x, first-packet serial %d): got=%v want=%v (missing %v; re-requests seen for serials %v)", idx, o.Kind, m.now, k, c.Transfers[k].ID, m.tr[k].first, has, must, want, got)
 			}
@@ -293,7 +334,7 @@ func checkC14(c c14Case, _ *kit.Collector) kit.Result {
 				return fmt.Sprintf("op %d (%s) at model time %d ms: transfer %d (id %#04x) complete delivered=%v, model says %v", idx, o.Kind, m.now, k, c.Transfers[k].ID, gotComplete[k], exp.complete[k])
 			}
 		}
-		if len(got) > len(exp.rereq) {
+		if len(got) > len(exp.rereq)+len(rereqForTrigger) {
 			return fmt.Sprintf("op %d: re-request with an unknown first-packet serial: %v", idx, got)
 		}
 		return ""
@@ -371,6 +412,7 @@ func checkC14(c c14Case, _ *kit.Collector) kit.Result {
 	lab(rounds == 0, "no_rerequest")
 	lab(len(c.Transfers) == 2, "two_transfers")
 	lab(restarted, "transfer_restarted")
+	lab(pktTrigger, "silence_ended_by_a_packet_of_another_transfer")
 	lab(len(c.Transfers[0].Bodies) >= 10, "N>=10")
 	res.NT = multiMissing && crossed5
 	return res
